@@ -20,7 +20,7 @@
 
 /* largest byte vector the proofs range over (protocol: 16-bit payload length + headers) */
 #ifndef VEC_MAX
-#define VEC_MAX 70000ul
+#define VEC_MAX 0x7fffffffUL
 #endif
 
 /* counterexample mode (-DVERIF_CEX=K): byte buffers of symbolic length n are allocated with constant capacity K and
